@@ -66,57 +66,57 @@ H_SCHEMA = {"": {
 
 # (scope, body); every body is strictly valid for the environments the scope admits
 H_POOL = [
-    ("principal, action, resource is Doc", 'resource.owner == principal'),
-    ("principal, action, resource is Doc", 'principal in resource.viewers'),
-    ("principal, action, resource is Doc", 'principal.profile.team in resource.viewers'),
-    ("principal, action, resource is Doc", 'principal has manager && principal.manager has manager && principal.manager.manager.age > 3'),
-    ("principal, action, resource is Doc", 'resource.owner has manager && resource.owner.manager == principal'),
-    ("principal, action, resource is Doc", 'principal in resource.folder.owner.groups'),
-    ("principal, action, resource is Doc", 'principal has manager && {a: principal.manager, b: resource.owner}.b.age > 1'),
-    ("principal, action, resource is Doc", 'principal has manager && {a: principal.manager, b: resource.owner}.a.profile.address.city == "c"'),
-    ("principal, action, resource is Doc", '(if resource.public then resource.owner else principal).profile.address.city == "c"'),
-    ("principal, action, resource is Doc", '(if resource.public then resource.owner else principal) in resource.viewers'),
-    ("principal, action, resource is Doc", 'principal in (if resource.public then resource.viewers else principal.groups)'),
-    ("principal, action in [Action::"view", Action::"edit"], resource", 'context.delegate has manager && context.delegate.manager == principal'),
-    ("principal, action in [Action::"view", Action::"edit"], resource", 'context has via && principal in context.via'),
-    ("principal, action in [Action::"view", Action::"edit"], resource", 'principal in context.info.g && context.flag'),
-    ("principal, action in [Action::"view", Action::"edit"], resource", 'context.delegate.profile.team in resource.viewers'),
-    ("principal, action in [Action::"view", Action::"edit"], resource", 'principal has manager && [principal.manager, resource.owner].contains(context.delegate)'),
-    ("principal, action, resource is Doc", 'principal.groups.contains(resource.folder.owner.profile.team)'),
-    ("principal, action, resource is Doc", 'principal.profile == resource.owner.profile'),
-    ("principal, action, resource is Doc", 'resource.meta == {author: principal, labels: ["x"]}'),
-    ("principal, action, resource is Doc", 'resource.meta.labels.contains("x") || principal.profile has nick && principal.profile.nick like "a*"'),
-    ("principal, action, resource", 'principal in Group::"g1"'),
-    ("principal, action, resource is Doc", 'resource in Folder::"f1" && principal.age >= 18'),
-    ("principal, action, resource is Doc", 'principal in [Group::"g1", resource.owner.profile.team]'),
-    ("principal, action, resource", 'action in Action::"write"'),
-    ("principal, action in Action::"write", resource", 'principal.age < 40'),
-    ("principal, action, resource is Doc", 'resource.owner has friend && resource.owner.friend has friend && resource.owner.friend.friend.name == "bob"'),
-    ("principal, action, resource", 'User::"u1" has manager && User::"u1".manager in Group::"g2"'),
-    ("principal, action, resource is Doc", 'User::"u1" in resource.viewers'),
-    ("principal == User::"u1", action, resource is Doc", 'User::"u1".profile.team == resource.owner.profile.team'),
-    ("principal, action, resource is Doc", 'principal.groups.isEmpty() || resource.viewers.containsAny(principal.groups)'),
-    ("principal, action, resource is Doc", 'resource.viewers.containsAll(principal.groups)'),
-    ("principal, action, resource", 'principal has manager && principal.manager in principal.profile.team'),
-    ("principal, action, resource is Doc", 'principal.profile.team has lead && principal.profile.team.lead == resource.meta.author'),
-    ("principal, action, resource is Doc", 'resource.folder in Folder::"f2" || resource.folder.owner.profile.team.rank > 1'),
-    ("principal in Group::"g0", action, resource in Folder::"f0"", 'true'),
-    ("principal is User in Group::"g2", action == Action::"list", resource", 'resource.owner == principal || resource.owner in principal.profile.team'),
-    ("principal, action, resource is Doc", 'principal.profile.address has zip && principal.profile.address.zip + principal.age > 100'),
-    ("principal, action, resource is Doc", 'principal has friend && principal.friend.profile.team in resource.owner.groups'),
-    ("principal, action, resource is Doc", '{o: resource.owner}.o in {g: resource.viewers}.g'),
-    ("principal, action, resource is Doc", 'principal has "manager" && (principal.manager.age > principal.age) == resource.public'),
+    ('principal, action, resource is Doc', 'resource.owner == principal'),
+    ('principal, action, resource is Doc', 'principal in resource.viewers'),
+    ('principal, action, resource is Doc', 'principal.profile.team in resource.viewers'),
+    ('principal, action, resource is Doc', 'principal has manager && principal.manager has manager && principal.manager.manager.age > 3'),
+    ('principal, action, resource is Doc', 'resource.owner has manager && resource.owner.manager == principal'),
+    ('principal, action, resource is Doc', 'principal in resource.folder.owner.groups'),
+    ('principal, action, resource is Doc', 'principal has manager && {a: principal.manager, b: resource.owner}.b.age > 1'),
+    ('principal, action, resource is Doc', 'principal has manager && {a: principal.manager, b: resource.owner}.a.profile.address.city == "c"'),
+    ('principal, action, resource is Doc', '(if resource.public then resource.owner else principal).profile.address.city == "c"'),
+    ('principal, action, resource is Doc', '(if resource.public then resource.owner else principal) in resource.viewers'),
+    ('principal, action, resource is Doc', 'principal in (if resource.public then resource.viewers else principal.groups)'),
+    ('principal, action in [Action::"view", Action::"edit"], resource', 'context.delegate has manager && context.delegate.manager == principal'),
+    ('principal, action in [Action::"view", Action::"edit"], resource', 'context has via && principal in context.via'),
+    ('principal, action in [Action::"view", Action::"edit"], resource', 'principal in context.info.g && context.flag'),
+    ('principal, action in [Action::"view", Action::"edit"], resource', 'context.delegate.profile.team in resource.viewers'),
+    ('principal, action in [Action::"view", Action::"edit"], resource', 'principal has manager && [principal.manager, resource.owner].contains(context.delegate)'),
+    ('principal, action, resource is Doc', 'principal.groups.contains(resource.folder.owner.profile.team)'),
+    ('principal, action, resource is Doc', 'principal.profile == resource.owner.profile'),
+    ('principal, action, resource is Doc', 'resource.meta == {author: principal, labels: ["x"]}'),
+    ('principal, action, resource is Doc', 'resource.meta.labels.contains("x") || principal.profile has nick && principal.profile.nick like "a*"'),
+    ('principal, action, resource', 'principal in Group::"g1"'),
+    ('principal, action, resource is Doc', 'resource in Folder::"f1" && principal.age >= 18'),
+    ('principal, action, resource is Doc', 'principal in [Group::"g1", resource.owner.profile.team]'),
+    ('principal, action, resource', 'action in Action::"write"'),
+    ('principal, action in Action::"write", resource', 'principal.age < 40'),
+    ('principal, action, resource is Doc', 'resource.owner has friend && resource.owner.friend has friend && resource.owner.friend.friend.name == "bob"'),
+    ('principal, action, resource', 'User::"u1" has manager && User::"u1".manager in Group::"g2"'),
+    ('principal, action, resource is Doc', 'User::"u1" in resource.viewers'),
+    ('principal == User::"u1", action, resource is Doc', 'User::"u1".profile.team == resource.owner.profile.team'),
+    ('principal, action, resource is Doc', 'principal.groups.isEmpty() || resource.viewers.containsAny(principal.groups)'),
+    ('principal, action, resource is Doc', 'resource.viewers.containsAll(principal.groups)'),
+    ('principal, action, resource', 'principal has manager && principal.manager in principal.profile.team'),
+    ('principal, action, resource is Doc', 'principal.profile.team has lead && principal.profile.team.lead == resource.meta.author'),
+    ('principal, action, resource is Doc', 'resource.folder in Folder::"f2" || resource.folder.owner.profile.team.rank > 1'),
+    ('principal in Group::"g0", action, resource in Folder::"f0"', 'true'),
+    ('principal is User in Group::"g2", action == Action::"list", resource', 'resource.owner == principal || resource.owner in principal.profile.team'),
+    ('principal, action, resource is Doc', 'principal.profile.address has zip && principal.profile.address.zip + principal.age > 100'),
+    ('principal, action, resource is Doc', 'principal has friend && principal.friend.profile.team in resource.owner.groups'),
+    ('principal, action, resource is Doc', '{o: resource.owner}.o in {g: resource.viewers}.g'),
+    ('principal, action, resource is Doc', 'principal has "manager" && (principal.manager.age > principal.age) == resource.public'),
 ]
 H_TEMPLATES = [
-    ("principal in ?principal, action, resource == ?resource", 'true', {"principal": ("Group", "g"), "resource": ("Doc", "d")}),
-    ("principal == ?principal, action, resource in ?resource", 'resource.owner == principal', {"principal": ("User", "u"), "resource": ("Folder", "f")}),
-    ("principal in ?principal, action, resource", 'principal.age > 1', {"principal": ("Group", "g")}),
+    ('principal in ?principal, action, resource == ?resource', 'true', {"principal": ("Group", "g"), "resource": ("Doc", "d")}),
+    ('principal == ?principal, action, resource in ?resource', 'resource.owner == principal', {"principal": ("User", "u"), "resource": ("Folder", "f")}),
+    ('principal in ?principal, action, resource', 'principal.age > 1', {"principal": ("Group", "g")}),
 ]
 # refused by the analysis (recorded, not failures)
 H_REFUSED = [
-    ("principal, action, resource", 'principal.age > "x"', "Validation"),
-    ("principal, action, resource", 'principal.nope == 1', "Validation"),
-    ("principal, action, resource", 'principal.manager.age > 3', "Validation"),
+    ('principal, action, resource', 'principal.age > "x"', "Validation"),
+    ('principal, action, resource', 'principal.nope == 1', "Validation"),
+    ('principal, action, resource', 'principal.manager.age > 3', "Validation"),
 ]
 
 NU, NG, ND, NF = 5, 4, 3, 3
@@ -341,6 +341,78 @@ def describe(ps, q=None, es=None):
     return d
 
 
+import re
+
+SLOT_IN = re.compile(r"\bin\s+\?(principal|resource)")
+
+
+def differing_ids(full, sl):
+    ids = set(full["reasons"]) ^ set(sl["reasons"])
+    ids |= {e[0] for e in (set(map(tuple, full["errors"])) ^ set(map(tuple, sl["errors"])))}
+    return ids
+
+
+def classify(ps, q, full, sl):
+    """stable class of an oracle failure (used as known-finding key):
+         template-slot-in      : a differing policy is a link of a template whose scope has `in ?principal|?resource`
+         static-false-error    : the differing policies differ only in the erroring set and are statically False
+                                 (PolicyCheck::Irrelevant) for the request's environment
+         other                 : anything else"""
+    ids = differing_ids(full, sl)
+    tpl = {t["id"]: t["text"] for t in ps["templates"]}
+    classes = set()
+    for p in ps["policies"]:
+        if p["id"] not in ids:
+            continue
+        if "template" in p and SLOT_IN.search(tpl[p["template"]]):
+            classes.add("template-slot-in")
+        elif full["reasons"] == sl["reasons"] and full["decision"] == sl["decision"] and irrelevant_in_env(ps, p["id"], q):
+            classes.add("static-false-error")
+        else:
+            classes.add("other")
+    return "+".join(sorted(classes)) or "other"
+
+
+def irrelevant_in_env(ps, pid, q):
+    cp = lambda s: [ord(c) for c in s]  # noqa: E731
+    for pol in ps.get("typed", []):
+        if pol["id"] != pid:
+            continue
+        for e in pol["envs"]:
+            env = e["env"]
+            if env["principal"] == [cp(c) for c in q["principal"][1]] and env["resource"] == [cp(c) for c in q["resource"][1]] \
+                    and env["action"]["type"] == [cp(c) for c in q["action"][1]] and env["action"]["id"] == cp(q["action"][2]):
+                return e["result"] == "irrelevant"
+    return False
+
+
+def shrink(harness, ps, q, es, full, sl):
+    """keep only the differing policies (and their templates), then delete entities while the oracle still fails"""
+    def run1(ps_, ess):
+        return fw.run_rust(harness, [dict(base_cmd(ps_), cmd="manifest_slice", request=cedar.request_json(q),
+                                          entities=cedar.entities_json(e_)) for e_ in ess])
+    ids = differing_ids(full, sl)
+    pols = [p for p in ps["policies"] if p["id"] in ids]
+    used = {p.get("template") for p in pols}
+    ps2 = dict(ps, policies=pols, templates=[t for t in ps["templates"] if t["id"] in used])
+    rr = run1(ps2, [es])[0]
+    if "sliced" not in rr or rr["full"] == rr["sliced"]:
+        ps2, rr = ps, run1(ps, [es])[0]
+    cur = list(es)
+    for _ in range(60):
+        cands = [cur[:i] + cur[i + 1:] for i in range(len(cur))]
+        res = run1(ps2, cands)
+        nxt = None
+        for c, r_ in zip(cands, res):
+            if "sliced" in r_ and r_["full"] != r_["sliced"]:
+                nxt, rr = c, r_
+                break
+        if nxt is None:
+            break
+        cur = nxt
+    return ps2, cur, rr.get("full"), rr.get("sliced"), rr
+
+
 def run_sets(rep, sets, npairs, r, harness, driver, stats):
     mres = fw.run_rust(harness, [dict(base_cmd(ps), cmd="manifest") for ps in sets])
     ok_sets = []
@@ -357,6 +429,7 @@ def run_sets(rep, sets, npairs, r, harness, driver, stats):
                               no_failing_input=(cls != "panic"), key="c17-manifest-" + cls)
             continue
         ps["manifest"] = mr["manifest"]
+        ps["typed"] = mr["typed"]
         ok_sets.append(ps)
         stats["manifests"] += 1
         acc = {"nodes": 0, "is_ancestor": 0, "ancestor_tries": 0}
@@ -401,6 +474,7 @@ def run_sets(rep, sets, npairs, r, harness, driver, stats):
              for ps, q, es in cases]
     mout = fw.run_model(driver, mcmds)
     failing_sets = set()
+    oracle_failures = {}
     for (ps, q, es), rr, mo in zip(cases, rres, mout):
         stats["pairs"] += 1
         if "slice" not in rr:
@@ -436,11 +510,11 @@ def run_sets(rep, sets, npairs, r, harness, driver, stats):
         if not oracle_ok:
             stats["oracle_fail"] += 1
             failing_sets.add(id(ps))
-            key = "c17-oracle-" + ps["stream"]
-            rep.violation({"property": PROP, "kind": "authorization on the sliced store differs from the full store",
-                           "case": describe(ps, q, es), "full": full, "sliced": sl, "slice": rr["slice"],
-                           "manifest": rr["manifest"], "validator": ps.get("validator_reject"),
-                           "replay": "./check C17 --replay <this file>"}, key=key)
+            cls = classify(ps, q, full, sl)
+            stats["oracle_fail_classes"][cls] = stats["oracle_fail_classes"].get(cls, 0) + 1
+            size = (len(ps["policies"]), len(es))
+            if cls not in oracle_failures or size < oracle_failures[cls][0]:
+                oracle_failures[cls] = (size, ps, q, es, full, sl)
         rs_, ms_ = canon_slice_rust(rr["slice"]), canon_slice_model(mo)
         if rs_ != ms_:
             stats["corr_diff"] += 1
@@ -456,6 +530,15 @@ def run_sets(rep, sets, npairs, r, harness, driver, stats):
                            "theorems_losing_transfer": THEOREMS}, no_failing_input=oracle_ok)
         else:
             stats["corr_same"] += 1
+    # one minimised replay per class of oracle failure (stable key per class)
+    for cls in sorted(oracle_failures):
+        _, ps, q, es, full, sl = oracle_failures[cls]
+        ps2, es2, full2, sl2, rr2 = shrink(harness, ps, q, es, full, sl)
+        rep.violation({"property": PROP, "kind": "authorization on the sliced store differs from the full store",
+                       "class": cls, "occurrences_in_this_run": stats["oracle_fail_classes"][cls],
+                       "case": describe(ps2, q, es2), "full": full2, "sliced": sl2, "slice": rr2.get("slice"),
+                       "manifest": rr2.get("manifest"), "validator": ps.get("validator_reject"),
+                       "replay": "./check C17 --replay <this file>"}, key="c17-oracle-" + cls)
     # validator rejections: a correspondence break only when confirmed by an oracle failure
     for ps in ok_sets:
         if ps.get("validator_reject"):
@@ -480,7 +563,7 @@ def run(rep, tier, seed):
              "validator_reject": 0, "validator_reject_confirmed": 0, "validator_reject_unconfirmed": 0, "pairs": 0,
              "slice_fail": {}, "decisions": {}, "with_reasons": 0, "with_errors": 0, "error_classes": {},
              "entities_full": 0, "entities_slice": 0, "attrs_full": 0, "attrs_slice": 0, "ancestors_slice": 0,
-             "slice_matters": 0, "oracle_fail": 0, "corr_diff": 0, "corr_same": 0, "distinct": set()}
+             "slice_matters": 0, "oracle_fail": 0, "oracle_fail_classes": {}, "corr_diff": 0, "corr_same": 0, "distinct": set()}
     sets = h_policy_sets(r, len(H_POOL) + (30 if quick else 600))
     # refused stream (hand-written)
     for scope, body, _ in H_REFUSED:
